@@ -386,3 +386,53 @@ M('C18', 'interval-contains-open', IVF, "        x >= self.min && x <= self.max"
 M('C18', 'interval-overlaps-one-sided', IVF, "        self.contains(other.min) || other.contains(self.min)", "        self.contains(other.min) || self.contains(other.max)", 'Interval::overlaps')
 M('C18', 'interval-intersection-swapped', IVF, "                self.min.max(other.min),\n                self.max.min(other.max),", "                self.min.min(other.min),\n                self.max.max(other.max),", 'Interval::intersection')
 M('C18', 'compliment-sign', ANF, "    if radians >= 0.0 {\n        (-2.0 * PI) + radians", "    if radians >= 0.0 {\n        (2.0 * PI) - radians", 'signed_compliment_2pi')
+# ---------------------------------------------------------------- C20
+CFM = 'src/geom3/mesh/conformal.rs'
+UVM = 'src/geom3/mesh/uv_mapping.rs'
+MSH = 'src/geom3/mesh.rs'
+M('C20', 'flatten-accepts-many-loops', CFM, "        if self.boundary_loops.len() != 1 {", "        if self.boundary_loops.is_empty() {", 'boundary_first_flatten')
+M('C20', 'flatten-check-after-solve', CFM, """        if self.boundary_loops.len() != 1 {
+            return Err("Mesh must have a single boundary loop".into());
+        }
+        let i_bound = self.boundary_loops[0].as_slice();
+""", """        let face_angles0 = calc_face_angles(self)?;
+        if self.boundary_loops.len() != 1 {
+            return Err(format!("Mesh must have a single boundary loop {}", face_angles0.len()).into());
+        }
+        let i_bound = self.boundary_loops[0].as_slice();
+""", 'solver-after-check')
+M('C20', 'cos_a-wrong-opposite', CFM, "let cos_a = (b.powi(2) + c.powi(2) - a.powi(2)) / (2.0 * b * c);", "let cos_a = (a.powi(2) + c.powi(2) - b.powi(2)) / (2.0 * b * c);", 'law-of-cosines')
+M('C20', 'cos_c-denominator', CFM, "let cos_c = (a.powi(2) + b.powi(2) - c.powi(2)) / (2.0 * a * b);", "let cos_c = (a.powi(2) + b.powi(2) - c.powi(2)) / (2.0 * a * c);", 'law-of-cosines')
+M('C20', 'angles-array-order', CFM, "[cos_a.acos(), cos_b.acos(), cos_c.acos()]", "[cos_b.acos(), cos_a.acos(), cos_c.acos()]", 'law-of-cosines')
+M('C20', 'defect-angle-to-wrong-vertex', CFM, "        thetas[face[1] as usize] -= angles[1];\n        thetas[face[2] as usize] -= angles[2];", "        thetas[face[1] as usize] -= angles[2];\n        thetas[face[2] as usize] -= angles[1];", 'calc_angle_defects')
+M('C20', 'defect-boundary-init', CFM, "        thetas[i as usize] = PI;", "        thetas[i as usize] = 2.0 * PI;", 'calc_angle_defects')
+M('C20', 'cotan-wrong-edge', CFM, "            values[edge as usize] += cotan[i];", "            values[edge as usize] += cotan[(i + 1) % 3];", 'cotan_laplacian_triplets')
+M('C20', 'cotan-no-half', CFM, "        *value *= 0.5;", "        *value *= 1.0;", 'cotan_laplacian_triplets')
+M('C20', 'cotan-diag-one-end', CFM, "        diagonals[edge[1] as usize] += value;", "        diagonals[edge[0] as usize] += value;", 'cotan_laplacian_triplets')
+M('C20', 'cotan-asymmetric', CFM, "        triplets.push(Triplet::new(edge[1], edge[0], -value));", "        triplets.push(Triplet::new(edge[0], edge[1], -value));", 'cotan_laplacian_triplets')
+M('C20', 'cotan-tan', CFM, "                1.0 / angles[1].tan(),", "                1.0 / angles[2].tan(),", 'cotan_laplacian_triplets')
+M('C20', 'inner-includes-boundary', CFM, ".filter(|&i| !boundary_set.contains(&i))", ".filter(|&i| boundary_set.contains(&i))", 'inner_vertices')
+M('C20', 'uv-point-bary-order', UVM, "            + tri.b.coords * barycentric[1]\n            + tri.c.coords * barycentric[2];", "            + tri.b.coords * barycentric[2]\n            + tri.c.coords * barycentric[1];", 'UvMapping::point')
+M('C20', 'uv_to_3d-bary-order', MSH, "let coords = t.a.coords * bc[0] + t.b.coords * bc[1] + t.c.coords * bc[2];", "let coords = t.a.coords * bc[1] + t.b.coords * bc[0] + t.c.coords * bc[2];", 'Mesh::uv_to_3d')
+M('C20', 'uv_with_tol-depth-untransformed', MSH, """            let point = if let Some(transform) = transform {
+                transform * point
+            } else {
+                *point
+            };
+
+            if let Some((prj, id, loc)) = self.project_with_tol(&point, max_dist, max_angle, None) {
+                let triangle = self.shape.triangle(id);""", """            let point0 = *point;
+            let point = if let Some(transform) = transform {
+                transform * point
+            } else {
+                *point
+            };
+
+            if let Some((prj, id, loc)) = self.project_with_tol(&point, max_dist, max_angle, None) {
+                let point = point0;
+                let triangle = self.shape.triangle(id);""", 'Mesh::uv_with_tol')
+M('C20', 'uv-new-swallow-error', UVM, "        let tri_map = TriMesh::new(vertices, faces)?;", "        let tri_map = TriMesh::new(vertices, faces).unwrap();", 'UvMapping::new')
+M('C20', 'neutral-rename', CFM, "        let i_inner = inner_vertices(self, i_bound)?;", "        let i_inner = inner_vertices(self, i_bound)?; // interior", '', kind='neutral')
+M('C20', 'neutral-cos-order', CFM, "let cos_b = (a.powi(2) + c.powi(2) - b.powi(2)) / (2.0 * a * c);", "let cos_b = (c.powi(2) + a.powi(2) - b.powi(2)) / (2.0 * c * a);", '', kind='neutral')
+M('C20', 'neutral-bary-term-order', UVM, "        let p = tri.a.coords * barycentric[0]\n            + tri.b.coords * barycentric[1]\n            + tri.c.coords * barycentric[2];", "        let p = tri.c.coords * barycentric[2]\n            + tri.a.coords * barycentric[0]\n            + tri.b.coords * barycentric[1];", '', kind='neutral')
+M('C20', 'uv_to_3d-wrong-triangle', MSH, "        let t = self.shape.triangle(i as u32);\n        let coords = t.a.coords * bc[0]", "        let t = self.shape.triangle(bc.len() as u32 - 3 + i as u32 / 2);\n        let coords = t.a.coords * bc[0]", 'Mesh::uv_to_3d')
